@@ -114,7 +114,7 @@ def run_mode(spec, parallel, PIDS):
 
 def main():
     spec = json.loads(sys.argv[1])
-    faulthandler.dump_traceback_later(spec.get('hang_after', 300), exit=True)
+    faulthandler.dump_traceback_later(spec.get('hang_after', 120), exit=True)
     multiprocessing.set_forkserver_preload(['vivarium', 'vmon.sensors', 'vmon.structw'])
     from vivarium.core.process import ParallelProcess, Process
     PIDS = []
